@@ -50,6 +50,8 @@ type DKGActor struct {
 	SilentP    int
 	firstOpen  uint64
 	States     map[string]*dkgState // "gid/addr"
+	victims    map[uint64]uint64
+	CorruptP   int // permille of deviators that corrupt a share (on top of the uniform choice)
 	NonMemberP int
 }
 
@@ -69,8 +71,21 @@ func (a *DKGActor) state(e *Env, gid uint64, m *TSSMember, mid uint64, size uint
 	st := &dkgState{GroupID: gid, MemberID: mid}
 	if !e.Draining && a.DeviateP > 0 && e.Ch.Bool("dkg.deviate", a.DeviateP) {
 		st.Deviation = dkgDeviations[e.Ch.Intn("dkg.deviation", len(dkgDeviations))]
+		if a.CorruptP > 0 && e.Ch.Bool("dkg.deviation.corrupt", a.CorruptP) {
+			st.Deviation = "r2_corrupt_share" // bad shares are the deviation the complaint machinery exists for
+		}
 		if size > 1 {
 			st.Target = 1 + uint64(e.Ch.Intn("dkg.target", int(size)))
+			// several deviators of one group often pick the same victim: one recipient then has to complain about several dealers
+			// in a single message
+			if a.victims == nil {
+				a.victims = map[uint64]uint64{}
+			}
+			if v, ok := a.victims[gid]; ok && e.Ch.Bool("dkg.target.shared", 600) {
+				st.Target = v
+			} else if !ok {
+				a.victims[gid] = st.Target
+			}
 			if st.Target == mid {
 				st.Target = mid%size + 1
 			}
